@@ -62,6 +62,7 @@ type kern struct {
 }
 
 type cfg struct {
+	cuPortBuf   int    // > 0: the CP's CU-facing port gets this outgoing-buffer size (default 4096): back-pressure on map requests
 	batch       bool   // CUs batch completions like the emulation CU: one message when the CU becomes idle
 	alg         string // "" = the Builder's own (round-robin)
 	dispatchers int
@@ -105,6 +106,9 @@ func body(c cfg) explore.Body {
 			}
 		}
 		p := b.Build("CP")
+		if c.cuPortBuf > 0 && c.alg != "" {
+			p.ToCUs = sim.NewPort(p, 4096, c.cuPortBuf, "CP.ToCUs")
+		}
 		if c.alg != "" {
 			cp.VerifUseDispatchers(p, c.alg, c.dispatchers, 2, ifc)
 		}
@@ -487,27 +491,35 @@ func main() {
 			}
 			pre := fmt.Sprintf("%s/disp%d/", an, d)
 			list = append(list,
-				sc{pre + "1cu/kA", cfg{false, alg, d, []cuSpec{small}, []kern{kA}}},
-				sc{pre + "2cu/kA", cfg{false, alg, d, []cuSpec{small, small}, []kern{kA}}},
-				sc{pre + "2cu/kBig", cfg{false, alg, d, []cuSpec{small, small}, []kern{kBig}}},
-				sc{pre + "1cu/kZero", cfg{false, alg, d, []cuSpec{tiny}, []kern{kZero}}},
-				sc{pre + "2cu/kFull", cfg{false, alg, d, []cuSpec{small, small}, []kern{kFull}}},
-				sc{pre + "2cu/kFilt", cfg{false, alg, d, []cuSpec{small, tiny}, []kern{kFilt}}},
-				sc{pre + "3cu/kOdd", cfg{false, alg, d, []cuSpec{small, tiny, small}, []kern{kOdd}}},
-				sc{pre + "1cu/kDyn", cfg{false, alg, d, []cuSpec{small}, []kern{kDyn}}},
+				sc{pre + "1cu/kA", cfg{0, false, alg, d, []cuSpec{small}, []kern{kA}}},
+				sc{pre + "2cu/kA", cfg{0, false, alg, d, []cuSpec{small, small}, []kern{kA}}},
+				sc{pre + "2cu/kBig", cfg{0, false, alg, d, []cuSpec{small, small}, []kern{kBig}}},
+				sc{pre + "1cu/kZero", cfg{0, false, alg, d, []cuSpec{tiny}, []kern{kZero}}},
+				sc{pre + "2cu/kFull", cfg{0, false, alg, d, []cuSpec{small, small}, []kern{kFull}}},
+				sc{pre + "2cu/kFilt", cfg{0, false, alg, d, []cuSpec{small, tiny}, []kern{kFilt}}},
+				sc{pre + "3cu/kOdd", cfg{0, false, alg, d, []cuSpec{small, tiny, small}, []kern{kOdd}}},
+				sc{pre + "1cu/kDyn", cfg{0, false, alg, d, []cuSpec{small}, []kern{kDyn}}},
 			)
 			list = append(list,
-				sc{pre + "batch/2cu/kA", cfg{true, alg, d, []cuSpec{small, small}, []kern{kA}}},
-				sc{pre + "batch/1cu/kZero", cfg{true, alg, d, []cuSpec{tiny}, []kern{kZero}}},
+				sc{pre + "batch/2cu/kA", cfg{0, true, alg, d, []cuSpec{small, small}, []kern{kA}}},
+				sc{pre + "batch/1cu/kZero", cfg{0, true, alg, d, []cuSpec{tiny}, []kern{kZero}}},
 			)
+			if d > 1 && alg != "" {
+				// a full CU-facing port while another dispatcher sends the last work-group of its kernel
+				list = append(list,
+					sc{pre + "portbuf2/1cu/kA+kOne", cfg{2, false, alg, d, []cuSpec{small}, []kern{kA, kOne}}},
+					sc{pre + "portbuf1/2cu/kZero+kOne+kOne", cfg{1, false, alg, d, []cuSpec{small, tiny}, []kern{kZero, kOne, late(kOne, 2)}}},
+					sc{pre + "portbuf2/2cu/kFull+kOne", cfg{2, false, alg, d, []cuSpec{small, small}, []kern{kFull, late(kOne, 1)}}},
+				)
+			}
 			if d > 1 {
 				list = append(list,
-					sc{pre + "batch/1cu/kOne+kOne", cfg{true, alg, d, []cuSpec{small}, []kern{kOne, kOne}}},
-					sc{pre + "1cu/kOne+kOne+kZero", cfg{false, alg, d, []cuSpec{small}, []kern{kOne, kOne, late(kZero, 3)}}},
-					sc{pre + "batch/1cu/kA+kA-late", cfg{true, alg, d, []cuSpec{small}, []kern{kA, late(kA, 4)}}},
-					sc{pre + "2cu/kA+kBig", cfg{false, alg, d, []cuSpec{small, small}, []kern{kA, kBig}}},
-					sc{pre + "1cu/kA+kA-late", cfg{false, alg, d, []cuSpec{small}, []kern{kA, late(kA, 4)}}},
-					sc{pre + "2cu/kFull+kZero+kBig", cfg{false, alg, d, []cuSpec{small, tiny}, []kern{kFull, late(kZero, 2), late(kBig, 6)}}},
+					sc{pre + "batch/1cu/kOne+kOne", cfg{0, true, alg, d, []cuSpec{small}, []kern{kOne, kOne}}},
+					sc{pre + "1cu/kOne+kOne+kZero", cfg{0, false, alg, d, []cuSpec{small}, []kern{kOne, kOne, late(kZero, 3)}}},
+					sc{pre + "batch/1cu/kA+kA-late", cfg{0, true, alg, d, []cuSpec{small}, []kern{kA, late(kA, 4)}}},
+					sc{pre + "2cu/kA+kBig", cfg{0, false, alg, d, []cuSpec{small, small}, []kern{kA, kBig}}},
+					sc{pre + "1cu/kA+kA-late", cfg{0, false, alg, d, []cuSpec{small}, []kern{kA, late(kA, 4)}}},
+					sc{pre + "2cu/kFull+kZero+kBig", cfg{0, false, alg, d, []cuSpec{small, tiny}, []kern{kFull, late(kZero, 2), late(kBig, 6)}}},
 				)
 			}
 		}
